@@ -296,14 +296,16 @@ P1(c, a, mode) ==
 
 \* phase 2 (extra_convert): "ok", "raise" (OverflowError returned at once), "wrap" (accepted with
 \* a wrapped value), "pend" (value -1 with an OverflowError pending: the body runs, then the error)
+\* with the fix the failed conversion is returned at once
+Pend == IF "int-error-ignored" \in Fixed THEN "raise" ELSE "pend"
 P2(c, a, mode) ==
   IF c \notin IntCats \/ a.t # "int" THEN "ok"
   ELSE IF mode = "single" THEN
      CASE c \in {"u8", "u16"} -> (IF InRange(a.v, c) THEN "ok" ELSE "raise")
-       [] c \in {"i8", "i16", "i32"} -> (IF InRange(a.v, c) THEN "ok" ELSE IF InLong(a.v) THEN "raise" ELSE "pend")
-       [] c = "il" -> (IF InLong(a.v) THEN "ok" ELSE "pend")
+       [] c \in {"i8", "i16", "i32"} -> (IF InRange(a.v, c) THEN "ok" ELSE IF InLong(a.v) THEN "raise" ELSE Pend)
+       [] c = "il" -> (IF InLong(a.v) THEN "ok" ELSE Pend)
        [] c = "u32" -> (IF InRange(a.v, c) THEN "ok" ELSE "raise")
-       [] c = "ul" -> (IF InULong(a.v) THEN "ok" ELSE "pend")
+       [] c = "ul" -> (IF InULong(a.v) THEN "ok" ELSE Pend)
        [] c = "u64" -> (IF InULong(a.v) THEN "ok" ELSE "wrap")
        [] OTHER -> "ok"
   ELSE
@@ -322,15 +324,18 @@ FirstBad(seq) == IF \E i \in 1..Len(seq) : seq[i] # "ok"
 \* one remap inside a group: "run" | "runwrap" | "runpend" | "raise" | "fail" | "failovf"
 Try(o, call, g, mode) ==
   LET n == N(call)
-      r1 == FirstBad([i \in 1..n |-> P1(o.p[i], call.a[i], mode)])
-      r2 == [i \in 1..n |-> P2(o.p[i], call.a[i], mode)]
+      np == Min2(n, Len(o.p))
+      r1 == FirstBad([i \in 1..np |-> P1(o.p[i], call.a[i], mode)])
+      r2 == [i \in 1..np |-> P2(o.p[i], call.a[i], mode)]
   IN IF ~SelfOK(o, call.self) THEN "fail"
+     \* a remap without parameters writes no parse at all: nothing checks the count of the arguments
+     ELSE IF Len(o.p) = 0 /\ "extra-args" \notin Fixed THEN "run"
      ELSE IF n < g.lo \/ n > Min2(g.hi, Len(o.p)) THEN "fail"
      ELSE IF r1 # "ok" THEN r1
-     ELSE IF \E i \in 1..n : r2[i] = "raise" THEN "raise"
-     ELSE IF \E i \in 1..n : ~P3(o.p[i], call.a[i]) THEN "fail"
-     ELSE IF \E i \in 1..n : r2[i] = "pend" THEN "runpend"
-     ELSE IF \E i \in 1..n : r2[i] = "wrap" THEN "runwrap"
+     ELSE IF \E i \in 1..np : r2[i] = "raise" THEN "raise"
+     ELSE IF \E i \in 1..np : ~P3(o.p[i], call.a[i]) THEN "fail"
+     ELSE IF \E i \in 1..np : r2[i] = "pend" THEN "runpend"
+     ELSE IF \E i \in 1..np : r2[i] = "wrap" THEN "runwrap"
      ELSE "run"
 
 RECURSIVE Pass(_, _, _, _, _, _)
@@ -407,6 +412,23 @@ DevClassesC(T, call, cx) ==
   (IF \E j1, j2 \in R : \E i \in Pos(T, call, j1) \cap Pos(T, call, j2) :
         call.a[i].t = "bool" /\ T[j1].p[i] \in IntCats \cup FloatCats /\ T[j2].p[i] = "bool"
      THEN {"C02-bool-takes-number-overload"} ELSE {})
+  \cup
+  \* non-const methods are tried before const ones, and a bool parameter takes any object: on a
+  \* non-const object a non-const f(bool) shadows every const overload
+  (IF call.self = "nc" /\ \E j1, j2 \in R : \E i \in Pos(T, call, j1) :
+        ~T[j1].k /\ T[j2].k /\ T[j1].p[i] = "bool" /\ call.a[i].t # "bool"
+     THEN {"C02-bool-shadows-const-overloads"} ELSE {})
+  \cup
+  \* the overloads serving a count are sorted by their number of parameters first: a longer
+  \* overload (the rest defaulted) that takes the argument by a Python conversion (int -> float,
+  \* anything -> bool, bool -> int) runs although a shorter overload has the corresponding type
+  (IF \E j1, j2 \in R : \E i \in Pos(T, call, j1) :
+        Len(T[j1].p) > Len(T[j2].p) /\ PyAccept(call.a[i], T[j1].p[i]) /\ ~Corr(call.a[i], T[j1].p[i])
+     THEN {"C02-longer-overload-first"} ELSE {})
+  \cup
+  \* a remap without parameters inside a range of counts runs whatever arguments were passed
+  (IF "extra-args" \notin Fixed /\ N(call) > 0 /\ g.lo < g.hi /\ \E j \in R : Len(T[j].p) = 0
+     THEN {"C02-extra-arguments-ignored"} ELSE {})
 
 DevC(T, call, cx) == DevClassesC(T, call, cx)
 Dev(T, call) == DevC(T, call, SetCtx(T))
